@@ -26,7 +26,19 @@ func multiFault(c *fw.Ctx, n int, emit emitFn) {
 		if i%29 == 2 {
 			class = 15
 		}
+		if i%31 == 3 {
+			class = 16
+		}
 		switch class {
+		case 16: // string literals that hold a dot together with escapes only JSON knows (\/ and surrogate pairs), digits, signs: every
+			// place where the kind of a literal is guessed from its text (ENUM values, enum rules, examples)
+			lits := []string{`"http:\/\/a.b\/0.5"`, `"\uD83D\uDE00 v1.0"`, `"a.b"`, `"1.5"`, `"x\/y.z"`, `"-0.5"`, `".5"`, `"5."`, `"1.2.3"`, `"\u0031.\u0035"`, `"q\"1.2\""`, `"tab\t.x"`}
+			r.Shuffle(len(lits), func(a, b int) { lits[a], lits[b] = lits[b], lits[a] })
+			n := 3 + k
+			if n > len(lits) {
+				n = len(lits)
+			}
+			sb.WriteString("ENUM @lit\n[\n  " + strings.Join(lits[:n], ",\n  ") + "\n]\nTYPE @uses\n{\n  \"v\": " + lits[0] + ", // {enum: @lit}\n  \"w\": " + lits[1] + " // {enum: [" + lits[1] + ", " + lits[2] + "]}\n}\nGET /lit\n  200 @uses\n")
 		case 15: // header, query and property names that differ only in blanks or letter case (valid document; exporters key maps by name)
 			names := []string{"X-Id", "X-Id ", " X-Id", "x-id", "X-ID", "X-Id\\t", "X_Id"}
 			r.Shuffle(len(names), func(a, b int) { names[a], names[b] = names[b], names[a] })
